@@ -139,6 +139,9 @@ def oracle_tovec(payload):
         return None
     if not res.startswith("result " + want + " "):
         return "future yielded %s, expected %s" % (res, want)
+    ma = re.search(r"again=(\S+)", res)
+    if ma and ma.group(1) != want:
+        return "a clone of the ready future yielded %s, expected %s again" % (ma.group(1), want)
     return None
 
 
@@ -269,6 +272,38 @@ def oracle_handoff(payload, pipe_text):
             total_calls = sum(1 for (tid, r, t) in d["recs"] if re.match(r"x\d+!", r))
             if started_after and len(evs) > total_calls - started_after:
                 return "an event the source started to emit after unsubscribe returned was delivered"
+    return None
+
+
+def scen_handoff_resub(rng, n):
+    """the SAME observe_on / subscribe_on observable value subscribed three times (C09 + C14 for the scheduler-based
+    operators): every subscription gets its own scheduler and loses nothing, whether or not an earlier one has ended"""
+    out = []
+    srcs = ["(from_iter 1 2 3)", "(cold 0 (n 1) (n 2) (e 6))", "(just 7)"]
+    wraps = ["(observe_on %s)", "(subscribe_on %s)", "(observe_on (subscribe_on %s))", "(take 2 (subscribe_on %s))", "(map inc (observe_on %s))"]
+    i = 0
+    for w in wraps:
+        for sc in srcs:
+            for gap in ("(settle 5)", ""):
+                out.append(("(conc C09-re-%d (pipe (def x %s) (sub (ref x) (react)) %s (sub (ref x) (react)) %s (sub (ref x) (react))))" % (i, w % sc, gap, gap), w % sc)); i += 1
+    return out
+
+
+def oracle_handoff_resub(payload, pipe_text):
+    d = parse_pipe(payload)
+    if d is None:
+        return "malformed record"
+    want = expected_events(strip_threading(pipe_text))
+    for u in range(3):
+        evs = user_events(d["recs"], u)
+        m = check_contract(evs)
+        if m:
+            return m
+        got = [e[1] for e in evs]
+        if got != want:
+            return "subscription %d of the same observable delivered %s, the source emitted %s" % (u, " ".join(got) or "nothing", " ".join(want))
+    if d["threads"][0] != d["threads"][1]:
+        return "a worker thread did not exit (%d of %d)" % d["threads"]
     return None
 
 
@@ -1019,10 +1054,8 @@ CONC = {
     "C12": dict(model=None, scen=scen_subjects, oracle=oracle_subjects, corr="Conc.Subject / Conc.Replay / Conc.Behavior vs src/subjects/*.rs", info=True,
                 more=[dict(model="subjlts", kind="subjlts", scen=scen_subjlts, oracle=oracle_subjlts, iters=(2000, 6000))]),
     "C09": dict(model=None, scen=scen_handoff, oracle=oracle_handoff, corr="Conc.Handoff vs src/operators/observe_on.rs, subscribe_on.rs", info=True,
-                # TEMPORARILY OFF: the hand-off co-simulation (LTS + renderer) is being updated for the re-check added to
-                # StreamController::new_observer by fix dfd0310; until then its rejects are stale-model noise
-                more=[]),
-    "_C09_cosim_group": dict(model="handoff", kind="handoff", scen=scen_handoff_cosim, oracle=oracle_handoff_cosim, iters=(2000, 10000)),
+                more=[dict(model="handoff", kind="handoff", scen=scen_handoff_cosim, oracle=oracle_handoff_cosim, iters=(2000, 10000)),
+                      dict(model=None, kind="pipe (def x", scen=scen_handoff_resub, oracle=oracle_handoff_resub, info=True, iters=(200, 3000))]),
     "C11": dict(model=None, scen=scen_merge, oracle=oracle_merge, corr="Conc.Sctl / Conc.TakeAmbZip vs stream_controller.rs, merge/zip/amb/take", info=True,
                 more=[dict(model=m, kind="sctl " + ("merge" if m == "sctl" else m), scen=scen_sctl(m), oracle=oracle_sctl, iters=(2000, 6000)) for m in ("sctl", "take", "amb", "zip")]),
     "C15": dict(model=None, scen=scen_threads, oracle=oracle_threads, corr="Conc.Timed / Conc.Queue vs scheduler-based operators", info=True,
